@@ -112,6 +112,25 @@ def check_case(case):
         return Outcome((), ('refused',), False, True)
     except Crash as ex:
         return Outcome([Dev('C03/crash-' + ex.key, str(ex))], ('crash',), True)
+    if case.get('fn') == 'make_sequence':
+        # "in every symbol": each symbol of a Structured Append sequence
+        try:
+            seq = call(list, qr)
+        except Refused:
+            return Outcome((), ('refused',), False, True)
+        except Crash as ex:
+            return Outcome([Dev('C03/crash-' + ex.key, str(ex))], ('crash',), True)
+        outs = [check_symbol(case, q) for q in seq]
+        counters = {}
+        for o in outs:
+            for k, n in o.counters.items():
+                counters[k] = counters.get(k, 0) + n
+        return Outcome([d for o in outs for d in o.devs], sorted({lb for o in outs for lb in o.labels}) + ['sequence'],
+                       any(o.nontrivial for o in outs), counters=counters)
+    return check_symbol(case, qr)
+
+
+def check_symbol(case, qr):
     d, devs = decode_symbol('C03', qr)
     if d is None:
         return Outcome(devs, ('undecodable',), True)
@@ -244,8 +263,24 @@ def free_cases(draw):
     return case
 
 
+def sequence_cases(tier):
+    cases = []
+    for ui, unit in enumerate(('1234567890', 'ABC DEF$%', 'abcdefgh', '\x00\xff\xec\x11')):
+        for n in range(2, 100 if tier == 'quick' else 400):
+            content = (unit * (n // len(unit) + 1))[:n]
+            if ui == 3:
+                content = content.encode('latin-1')
+            for ci, kw in enumerate(({'version': 1}, {'symbol_count': 2}, {'version': 2, 'error': 'Q', 'boost_error': False}, {'symbol_count': 5, 'error': 'H'},
+                                     {'symbol_count': 1})):
+                if (n + ci) % 3 and tier == 'quick' and n > 40:
+                    continue
+                cases.append({'fn': 'make_sequence', 'content': enc_content(content), 'kw': kw,
+                              'patterns': [['max', n * 7 + ci], ['random', n + ci]] if (n + ci) % 4 == 0 else []})
+    return cases
+
+
 def required_labels(tier):
-    return ['layout', 'sweep', 'family-max', 'family-burst', 'family-random', 'M1', 'M2', 'M3', 'M4', 'v27-40']
+    return ['sequence', 'layout', 'sweep', 'family-max', 'family-burst', 'family-random', 'M1', 'M2', 'M3', 'M4', 'v27-40']
 
 
 def _fuzz(tier):
@@ -264,5 +299,7 @@ def phases(tier, seed):
         Enum('layouts', lambda: layout_cases(tier, seed), exhaustive=True,
              note='all 168 (version, level) block layouts; per layout several contents x fault families; '
                   'the error patterns themselves are sampled (except the single-codeword sweep)'),
+        Enum('sequences', lambda: sequence_cases(tier), exhaustive=False,
+             note='every symbol of Structured Append sequences (lengths 2..99 / ..399 x 4 contents x 5 option sets), a quarter with injected faults'),
         Search('free', free_cases(), n),
     ] + _fuzz(tier)
